@@ -628,3 +628,208 @@ def string_default_literals(ctx):
         rows.append({"ok": val == s, "case": case, "line": fd.node.lineno,
                      "message": f"{case} emits {got}, which evaluates to {val!r} in the generated module, not to the definition's {s!r}"})
     return rows
+
+
+def synthetic_definitions():
+    """Small message definitions exercising: per-version field visibility, nested struct arrays (with their own version ranges),
+    nullable-from-a-version, tagged-from-a-version, explicit defaults, flexible-from-a-version.  Plain data; the expectation
+    below is computed from this data only (an independent reading of the definition format)."""
+    INF = float("inf")
+    P = lambda name, typ, versions, **kw: dict(kind="prim", name=name, type=typ, versions=versions, **kw)
+    return [{
+        "name": "DemoThingRequest", "type": "request", "apiKey": 99, "validVersions": (0, 3), "flexibleVersions": (2, INF),
+        "fields": [
+            P("TopicName", "string", (0, INF)),
+            P("RetryCount", "int32", (0, INF), default="3"),
+            P("OldFlag", "bool", (0, 1)),
+            dict(kind="array", name="PartitionStates", type="PartitionState", versions=(1, INF), nullableVersions=(2, INF), fields=[
+                P("PartitionIndex", "int32", (0, INF)),
+                P("LeaderEpoch", "int32", (2, INF), default="-1"),
+                P("IsNew", "bool", (3, INF), taggedVersions=(3, INF), tag=0, ignorable=True, default="false"),
+            ]),
+            P("ClusterId", "string", (2, INF), taggedVersions=(2, INF), tag=1, ignorable=True, nullableVersions=(2, INF), default="null"),
+            P("Newest", "int64", (3, 3)),
+            P("Reason", "string", (0, INF), taggedVersions=(2, INF), tag=2, ignorable=True),
+            P("Owner", "string", (2, INF), taggedVersions=(2, INF), tag=3, ignorable=False),
+            P("Weight", "int32", (2, INF), taggedVersions=(2, INF), tag=4, ignorable=False),
+        ]}, {
+        "name": "DemoThingResponse", "type": "response", "apiKey": 99, "validVersions": (1, 2), "flexibleVersions": (2, INF),
+        "fields": [
+            P("ThrottleCount", "int16", (1, INF)),
+            dict(kind="struct", name="Coordinator", type="CoordinatorInfo", versions=(2, INF), nullableVersions=None, fields=[
+                P("NodeId", "int32", (0, INF)),
+                P("Host", "string", (0, INF)),
+            ]),
+        ]}]
+
+
+PY_HINT = {"string": "str", "int8": "i8", "int16": "i16", "int32": "i32", "int64": "i64", "bool": "bool", "float64": "f64", "uuid": "uuid.UUID | None"}
+
+
+def generated_modules(ctx):
+    """G14: generate_models evaluated (E2) on the synthetic definitions; the emitted code of every version is parsed and compared
+    class by class, field by field with what the definition says for that version."""
+    I = ctx.interp
+    gs, pm = _mod(ctx, "codegen.generate_schema"), _mod(ctx, "codegen.parser")
+    VR = _mod(ctx, "codegen.versions").env.vars.get("VersionRange")
+    gm = gs.env.vars.get("generate_models")
+    need = {n: pm.env.vars.get(n) for n in ("MessageSchema", "PrimitiveField", "EntityArrayField", "EntityField", "EntityType", "EntityArrayType")}
+    Prim, members = primitive_members(ctx)
+    if not isinstance(gm, FuncV) or not all(isinstance(v, ClassV) for v in need.values()) or not isinstance(VR, ClassV):
+        raise AnalysisError("anchor vanished: codegen.generate_schema.generate_models / codegen.parser model classes")
+    by_value = {m.value: m for m in members}
+    mk = lambda r: None if r is None else I.call(VR, [r[0], r[1]], {}, Run(), None)
+    inside = lambda r, v: r is not None and r[0] <= v <= r[1]
+
+    def build(f):
+        base = {"name": f["name"], "versions": mk(f["versions"]), "nullableVersions": mk(f.get("nullableVersions")),
+                "ignorable": f.get("ignorable", False), "mapKey": False, "about": None, "entityType": None,
+                "tag": f.get("tag"), "taggedVersions": mk(f.get("taggedVersions"))}
+        if f["kind"] == "prim":
+            return InstV(need["PrimitiveField"], dict(base, type=by_value[f["type"]], default=f.get("default")))
+        sub = tuple(build(x) for x in f["fields"])
+        if f["kind"] == "array":
+            return InstV(need["EntityArrayField"], dict(base, type=I.call(need["EntityArrayType"], [f["type"]], {}, Run(), None), fields=sub))
+        return InstV(need["EntityField"], dict(base, type=I.call(need["EntityType"], [f["type"]], {}, Run(), None), fields=sub, default=None))
+
+    rows = []
+    for d in synthetic_definitions():
+        for holder in ("seen", "custom_types", "seen_custom_types"):
+            h = gs.env.vars.get(holder)
+            if isinstance(h, ListV):
+                h.items.clear()
+            elif isinstance(h, DictV):
+                h.d.clear()
+        schema = InstV(need["MessageSchema"], {"name": d["name"], "type": d["type"], "apiKey": d["apiKey"], "validVersions": mk(d["validVersions"]),
+                                               "flexibleVersions": mk(d["flexibleVersions"]), "fields": tuple(build(f) for f in d["fields"])})
+        try:
+            out = I.call(gm, [schema], {}, Run(), None)
+            items = I.iterate_concrete(out, Run(), None)
+        except Raised as r:
+            rows.append({"ok": False, "case": d["name"], "message": f"generate_models({d['name']}) raises {short_exc(r.cls)} at {r.site}"})
+            continue
+        except Limit as e:
+            raise AnalysisError(f"generate_models not understood: {e}")
+        code = {}
+        for it in items:
+            if isinstance(it, tuple) and len(it) == 2 and isinstance(it[1], str):
+                code[it[0]] = code.get(it[0], "") + it[1]
+            elif isinstance(it, tuple) and len(it) == 2 and isinstance(it[1], Sym):
+                raise AnalysisError(f"generate_models({d['name']}) emits non-constant code for version {it[0]}: {it[1]!r}")
+        lo, hi = d["validVersions"]
+        rows.append({"ok": sorted(code) == list(range(lo, hi + 1)), "case": f"{d['name']} versions",
+                     "message": f"{d['name']}: code is generated for versions {sorted(code)}, the definition declares {lo}-{hi}"})
+        for v in range(lo, hi + 1):
+            if v not in code:
+                continue
+            try:
+                tree = ast.parse(code[v])
+            except SyntaxError as e:
+                rows.append({"ok": False, "case": f"{d['name']} v{v}", "message": f"{d['name']} v{v}: the generated code does not parse: {e}"})
+                continue
+            got = {}
+            order = []
+            for c in tree.body:
+                if not isinstance(c, ast.ClassDef):
+                    continue
+                cv, fl = {}, []
+                for st in c.body:
+                    if isinstance(st, ast.AnnAssign) and isinstance(st.target, ast.Name):
+                        if "ClassVar" in ast.unparse(st.annotation):
+                            cv[st.target.id] = ast.unparse(st.value) if st.value is not None else None
+                        else:
+                            kws = {}
+                            if isinstance(st.value, ast.Call) and ast.unparse(st.value.func) == "field":
+                                kws = {k.arg: ast.unparse(k.value) for k in st.value.keywords}
+                            elif st.value is not None:
+                                kws = {"default": ast.unparse(st.value)}
+                            fl.append((st.target.id, ast.unparse(st.annotation).replace(" ", ""), kws))
+                got[c.name] = (cv, fl, [ast.unparse(x) for x in c.decorator_list])
+                order.append(c.name)
+            flexible = inside(d["flexibleVersions"], v)
+
+            def expect_fields(fields):
+                out_ = []
+                for f in fields:
+                    if not inside(f["versions"], v):
+                        continue
+                    name = snake_ref(f["name"])
+                    tagged, nullable = inside(f.get("taggedVersions"), v), inside(f.get("nullableVersions"), v)
+                    if f["kind"] == "prim":
+                        hint = PY_HINT[f["type"]]
+                        opt = nullable or (tagged and f.get("ignorable") and f.get("default") is None)
+                        ann = hint + ("|None" if opt and "None" not in hint else "")
+                    elif f["kind"] == "array":
+                        ann = f"tuple[{f['type']},...]" + ("|None" if nullable else "")
+                    else:
+                        ann = f["type"] + ("|None" if nullable else "")
+                    out_.append((name, ann.replace(" ", ""), 0 if not tagged else f["tag"], tagged, f))
+                return out_
+
+            def check_class(cname, fields, top):
+                tag = f"{d['name']} v{v} class {cname}"
+                if cname not in got:
+                    rows.append({"ok": False, "case": tag, "message": f"{tag}: the class is not generated (classes: {order})"})
+                    return
+                cv, fl, decos = got[cname]
+                problems = []
+                want_cv = {"__version__": f"i16({v})", "__flexible__": str(flexible),
+                           "__type__": f"EntityType.{d['type']}" if top else "EntityType.nested",
+                           "__api_key__": f"i16({d['apiKey']})",
+                           "__header_schema__": "RequestHeader" if d["type"] == "request" else "ResponseHeader"}
+                for k, w in want_cv.items():
+                    if cv.get(k) != w:
+                        problems.append(f"{k} = {cv.get(k)}, the definition gives {w}")
+                exp = expect_fields(fields)
+                if [e[0] for e in exp] != [g[0] for g in fl]:
+                    problems.append(f"fields are {[g[0] for g in fl]}, the definition's fields valid in v{v} are {[e[0] for e in exp]} (in this order)")
+                else:
+                    for (name, ann, tg, tagged, f), (gname, gann, kws) in zip(exp, fl):
+                        if gann != ann:
+                            problems.append(f"{name}: annotated {gann}, the definition gives {ann}")
+                        md = ast.literal_eval(kws["metadata"]) if "metadata" in kws else {}
+                        if md.get("tag") != (f["tag"] if tagged else None):
+                            problems.append(f"{name}: metadata tag {md.get('tag')!r}, the definition gives {f['tag'] if tagged else None!r}")
+                        if f["kind"] == "prim" and md.get("kafka_type") != f["type"]:
+                            problems.append(f"{name}: kafka_type {md.get('kafka_type')!r}, the definition says {f['type']!r}")
+                        if f["kind"] == "prim" and f.get("default") is not None:
+                            wd = {"3": "i32(3)", "-1": "i32(-1)", "false": "False", "true": "True", "null": "None"}.get(f["default"])
+                            if kws.get("default") != wd:
+                                problems.append(f"{name}: default {kws.get('default')!r}, the definition's default {f['default']!r} is {wd}")
+                        if kws.get("default") == "None" and "None" not in gann:
+                            problems.append(f"{name}: default None on a field annotated {gann} (None is not a value of that type)")
+                        if f["kind"] == "prim" and f.get("default") is None and not tagged and "default" in kws:
+                            problems.append(f"{name}: a default ({kws['default']}) although the definition gives none")
+                if not any("frozen=True" in x and "slots=True" in x and "kw_only=True" in x for x in decos):
+                    problems.append(f"decorator {decos}")
+                rows.append({"ok": not problems, "case": tag, "message": f"{tag}: " + "; ".join(problems)})
+
+            def walk(fields):
+                for f in fields:
+                    if f["kind"] in ("array", "struct") and inside(f["versions"], v):
+                        walk(f["fields"])
+                        check_class(f["type"], f["fields"], False)
+            walk(d["fields"])
+            check_class(d["name"], d["fields"], True)
+            want_order = []
+
+            def order_of(fields):
+                for f in fields:
+                    if f["kind"] in ("array", "struct") and inside(f["versions"], v):
+                        order_of(f["fields"])
+                        want_order.append(f["type"])
+            order_of(d["fields"])
+            want_order.append(d["name"])
+            rows.append({"ok": order == want_order, "case": f"{d['name']} v{v} classes",
+                         "message": f"{d['name']} v{v}: classes are emitted as {order}; every class must be defined before it is used: {want_order}"})
+    return rows
+
+
+def snake_ref(name):
+    """Reference snake-casing for plain CamelCase names (no acronyms, no digits): an underscore before every inner capital."""
+    out = []
+    for i, ch in enumerate(name):
+        if ch.isupper() and i:
+            out.append("_")
+        out.append(ch.lower())
+    return "".join(out)
